@@ -1,0 +1,22 @@
+//! Hooks for property C29 (Map32 region map): re-exports of crate-private items and read
+//! accessors.  No behaviour of their own.
+
+pub use crate::util::heap::layout::VMMap;
+pub use crate::util::heap::layout::VerifMap32 as Map32;
+pub use crate::util::heap::pageresource::CommonPageResource;
+pub use crate::util::heap::space_descriptor::SpaceDescriptor;
+
+/// `Map32Inner::prev_link[chunk]`.
+pub fn prev_link(map: &Map32, chunk: usize) -> i32 {
+    map.verif_prev_link(chunk)
+}
+
+/// `Map32Inner::next_link[chunk]`.
+pub fn next_link(map: &Map32, chunk: usize) -> i32 {
+    map.verif_next_link(chunk)
+}
+
+/// Raw entry `index` of the table of `Map32Inner::region_map` (an `IntArrayFreeList` with one head).
+pub fn region_map_entry(map: &Map32, index: i32) -> i32 {
+    map.verif_region_map_entry(index)
+}
